@@ -144,6 +144,3 @@ def run(chk):
                 chk.nontriv(('sphere', r.id))
         chk.traces += 1
     chk.extra_cov['welzl_radius_equal_to_certified_minimum'] = nmin
-    if chk.unparsed and not chk.violations:
-        chk.soft.append('Space fragment unparsed (%s); implementation-vs-model correspondence agrees' % chk.gen.get('Space', {}).get('why'))
-        chk.obligations = [o for o in chk.obligations if o['module'] != 'MVoro.Obl.Space']
